@@ -16,15 +16,12 @@ theorem stage_poll {g : Cfg} (ok : g.OK) {c : Conn} (hst : Stage g c) :
   | start hph hwire hraw hlog hb hstop hsc hm hev => exact start_poll ok hph hwire hraw hlog hb hstop hsc hm hev
   | parse hst hsc hm hev => exact (parse_poll ok hst hsc hm hev).mono (by omega)
   | @hread r h hph hr hb hstop hev hsc =>
-    refine (handler_core ok hph (read_phase (kok ok) hr hb ?_) hb hstop hev hsc).mono (by omega)
-    have := handlerFuel_ge c.env
-    have := ok.hfuel
-    show alignedBufsize g.b / 32 + 3 * c.env.tr.input.length + wcost g.data.length + 12 ≤ _
-    omega
+    exact (handler_core ok hph (rd_poll ok hr hb (handlerFuel_ge c.env)) hb hstop hev hsc).mono (by omega)
   | @hwrite r h O1 hph hw hb hstop hev hsc =>
     refine (handler_core ok hph (write_phase hw hb ?_) hb hstop hev hsc).mono (by omega)
     have := handlerFuel_ge c.env
-    have := ok.hfuel
+    have := ok.wfuel
+    show wcost g.data.length + 3 ≤ _
     omega
   | @closeW r rest O1 O2 hph hO hce hm hlog hb hstop hev hre hsc =>
     refine (close_out ok (r2 := r) (rest := rest) hO hph ?_ hce hm hlog hb hstop hev hre hsc).mono (by omega)
@@ -67,8 +64,8 @@ theorem PSt.cong {cap mc : Nat} {W0 L0 Z : Bytes} {c c' : Conn} {F : Bytes} (h :
   ⟨by rw [hs.input]; exact h.wire, hstop.trans h.stop, hs.ben h.ben, h.rem, by
     rw [hph, hs.wlog]; exact h.ph⟩
 
-theorem RSt.cong {K : RCtx} {L : Bytes} {r : AReq} {m m' : MutexSt} {t t' : Transport} {dC dO : Bytes}
-    (h : RSt K L r m t dC dO) (hm : m' = m) (hs : TrSame t t') : RSt K L r m' t' dC dO := by
+theorem RSt.cong {K : RCtx} {L P : Bytes} {r : AReq} {m m' : MutexSt} {t t' : Transport} {dC dO : Bytes}
+    (h : RSt K L P r m t dC dO) (hm : m' = m) (hs : TrSame t t') : RSt K L P r m' t' dC dO := by
   subst hm
   obtain ⟨⟨G, hi⟩, lk, mx, ⟨O1, l1, l2⟩⟩ := h
   exact ⟨⟨G, by rw [hs.input]; exact hi⟩, lk, mx, ⟨O1, by rw [hs.wlog]; exact l1, l2⟩⟩
@@ -83,29 +80,34 @@ theorem Stage.cong {g : Cfg} {c c' : Conn} (h : Stage g c) (hph : c'.phase = c.p
   | parse hst hsc0 hm0 hev =>
     exact .parse (hst.cong hph hstop hs) (hsc.trans hsc0) (hm.trans hm0) (hs.hs.trans hev)
   | @hread r h hph0 hr hb hstop0 hev hsc0 =>
-    refine .hread (hph.trans hph0) ⟨hr.ops, hr.ws, hr.pr, ?_⟩
-      (hs.ben hb) (hstop.trans hstop0) (hs.ev1 hev) (hsc.trans hsc0)
-    obtain ⟨dO, h1⟩ := hr.rem
-    exact ⟨dO, h1.cong hm hs⟩
+    refine .hread (hph.trans hph0) ?_ (hs.ben hb) (hstop.trans hstop0) (hs.ev1 hev) (hsc.trans hsc0)
+    have hrc : ∀ {K : RCtx} {rest : List HOp} {L P : Bytes}, HRead K rest L P r h c.env → HRead K rest L P r h c'.env := by
+      intro K rest L P hr
+      obtain ⟨dO, h1⟩ := hr.rem
+      exact ⟨hr.ops, hr.ws, hr.pr, dO, h1.cong hm hs⟩
+    rcases hr with ⟨h1, hr⟩ | ⟨h3, hr | ⟨hr, hev1⟩⟩
+    · exact Or.inl ⟨h1, hrc hr⟩
+    · exact Or.inr ⟨h3, Or.inl (hrc hr)⟩
+    · exact Or.inr ⟨h3, Or.inr ⟨hrc hr, hs.mem hev1⟩⟩
   | @hwrite r h O1 hph0 hw hb hstop0 hev hsc0 =>
     refine .hwrite (hph.trans hph0) ⟨hw.ops, hw.pr, ?_, hw.len, by rw [hs.input]; exact hw.fin, hw.out,
-      hs.mem hw.ev⟩ (hs.ben hb) (hstop.trans hstop0) (hs.ev1 hev) (hsc.trans hsc0)
+      fun s h => hs.mem (hw.ev s h)⟩ (hs.ben hb) (hstop.trans hstop0) (hs.ev1 hev) (hsc.trans hsc0)
     obtain ⟨w, L, sent, h1, h2, h3, h4⟩ := hw.wr
     exact ⟨w, L, sent, h1, by rw [hm]; exact h2, hs.wlog.trans h3, h4⟩
   | @closeW r rest O1 O2 hph0 hO hce hm0 hlog hb hstop0 hev hre hsc0 =>
     exact .closeW (hph.trans hph0) hO (by rw [hs.input]; exact hce) (hm.trans hm0) (by rw [hs.wlog]; exact hlog)
-      (hs.ben hb) (hstop.trans hstop0) (hs.ev1 hev) (hs.mem hre) (hsc.trans hsc0)
+      (hs.ben hb) (hstop.trans hstop0) (hs.ev1 hev) (fun s h => hs.mem (hre s h)) (hsc.trans hsc0)
   | @close r rest O1 O2 hph0 hO hce hm0 hlog hb hstop0 hev hre hsc0 =>
     exact .close (hph.trans hph0) hO (by rw [hs.input]; exact hce) (hm.trans hm0) (by rw [hs.wlog]; exact hlog)
-      (hs.ben hb) (hstop.trans hstop0) (hs.ev1 hev) (hs.mem hre) (hsc.trans hsc0)
+      (hs.ben hb) (hstop.trans hstop0) (hs.ev1 hev) (fun s h => hs.mem (hre s h)) (hsc.trans hsc0)
   | idle hO hst hfin hkeep hev hre hsc0 hmx =>
-    exact .idle hO (hst.cong hph hstop hs) (by rw [hs.input]; exact hfin) hkeep (hs.ev1 hev) (hs.mem hre)
+    exact .idle hO (hst.cong hph hstop hs) (by rw [hs.input]; exact hfin) hkeep (hs.ev1 hev) (fun s h => hs.mem (hre s h))
       (hsc.trans hsc0) (hm.trans hmx)
 
 theorem Parked.cong {g : Cfg} {O1 O2 : Bytes} {c c' : Conn} (h : Parked g O1 O2 c) (hph : c'.phase = c.phase)
     (hsc : c'.scripts = c.scripts) (hstop : c'.stop = c.stop) (hm : c'.env.mutex = c.env.mutex)
     (hs : TrSame c.env.tr c'.env.tr) : Parked g O1 O2 c' :=
-  ⟨hph.trans h.ph, hs.input.trans h.inp, hs.wlog.trans h.log, hs.ev1 h.ev, hs.mem h.re, hsc.trans h.sc,
+  ⟨hph.trans h.ph, hs.input.trans h.inp, hs.wlog.trans h.log, hs.ev1 h.ev, fun s h' => hs.mem (h.re s h'), hsc.trans h.sc,
    hstop.trans h.stop, hm.trans h.mtx, hs.ben h.ben, h.keep, hs.em.trans h.em⟩
 
 /-! ## The executor -/
